@@ -42,7 +42,7 @@ def run_case(case):
     if "py_headers" in case:
         script["headers"] = case["py_headers"]
         script["status"] = case["py_status"]
-    for k in ("sr_twice", "mutate_after"):
+    for k in ("sr_twice", "mutate_after", "swallow", "mutate_inner"):
         if k in case:
             script[k] = case[k]
     adj = {"expose_tracebacks": case["cfg"]["expose"], "log_socket_errors": case["cfg"]["log_socket_errors"]}
@@ -66,7 +66,8 @@ def run_case(case):
             except UnicodeEncodeError:
                 pass
     obs["app_strings_on_wire"] = on_wire
-    ev = {k: v for k, v in case.items() if k not in ("py_headers", "py_status", "sr_twice", "mutate_after", "offending")}
+    ev = {k: v for k, v in case.items() if k not in ("py_headers", "py_status", "sr_twice", "mutate_after", "mutate_inner", "offending")}
+    ev["swallow"] = bool(case.get("swallow"))
     ev["obs"] = obs
     return ev
 
